@@ -59,6 +59,8 @@ def run(ctx):
             pubs.append(b'\x04' + xb + y.to_bytes(32, 'big'))
             pubs.append(b'\x04' + xb + (P - y).to_bytes(32, 'big'))
             pubs.append(b'\x04' + xb + ((y + 1) % P).to_bytes(32, 'big'))           # wrong y
+            for yy in (0, 1, P - 1, P, (y + P) % 2**256, 2**256 - 1):                   # boundary y values on a valid abscissa
+                pubs.append(b'\x04' + xb + (yy % 2**256).to_bytes(32, 'big'))
         else:
             pubs.append(b'\x04' + xb + rng.randrange(P).to_bytes(32, 'big'))
     good = Key(12345)
@@ -68,6 +70,11 @@ def run(ctx):
     for pb in pubs:
         cases.append(('key_pub %s' % pb.hex(), keydump(lambda: Key(pb)), True))
         cases.append(('key_pub %s' % pb.hex(), keydump(lambda: Key(pb.hex())), True))
+    # the same encodings given as point tuples (x, y)
+    for pb in pubs:
+        if len(pb) == 65 and pb[0] == 4:
+            x, y = int.from_bytes(pb[1:33], 'big'), int.from_bytes(pb[33:], 'big')
+            cases.append(('key_pub %s' % pb.hex(), keydump(lambda: Key((x, y))), True))
     ctx.compare(cases, 'public')
 
     # ---- addresses --------------------------------------------------------------------------------------------
